@@ -51,6 +51,8 @@ def load_mod():
 
 def jobs(tier):
     out = []
+    from vlib import selfcheck
+    selfcheck.check_sympd()      # the pandas stand-in must agree with the real pandas on the operations the code uses
     for cond in ('names', 'numeric'):
         for n in BOUNDS[tier][cond]:
             for heur in ('MI-numba-randomized', 'max-value-coverage'):
